@@ -321,7 +321,11 @@ struct CallPlan {
 
 /// The scripted inner future / stream / sink: runs the steps of the current call plan on the
 /// calling thread and returns the planned outcome.
-struct Inner;
+struct Inner {
+    /// spans the inner object holds (dropped with it)
+    #[allow(dead_code)]
+    owned: Vec<Span>,
+}
 
 fn run_plan() -> AOutcome {
     let plan = CUR_CALL.with(|c| c.get());
@@ -623,9 +627,12 @@ pub fn exec_op(ctx: &mut WorkerCtx, op: &Op) {
             }
         }),
         Op::Exit => {}
-        Op::ANew { a, kind: ak, span, poll_name } => {
+        Op::ANew { a, kind: ak, span, poll_name, owned } => {
             use fastrace::future::FutureExt;
             let sp = span.map(|l| lock(&SPANS).as_mut().unwrap().remove(&l).expect("span for adapter"));
+            let owned: Vec<Span> = owned.iter().map(|l| lock(&SPANS).as_mut().unwrap().remove(l).expect("owned span")).collect();
+            #[allow(non_snake_case)]
+            let Inner = Inner { owned };
             let obj = match ak {
                 AKind::Future => match (sp, poll_name) {
                     (Some(s), None) => AdapterObj::F(Box::pin(Inner.in_span(s))),
